@@ -118,3 +118,31 @@ impl NonFungibleConsecutive for NftCons {}
 
 #[contractimpl(contracttrait)]
 impl NonFungibleBurnable for NftCons {}
+
+// ---------------- NFT with votes ----------------
+use stellar_governance::votes::Votes;
+use stellar_tokens::non_fungible::votes::NonFungibleVotes;
+
+#[contract]
+pub struct NftVotes;
+
+#[contractimpl]
+impl NftVotes {
+    pub fn __constructor(e: &Env) {
+        meta(e);
+    }
+    pub fn mint_seq(e: &Env, to: Address) -> u32 {
+        NonFungibleVotes::sequential_mint(e, &to)
+    }
+}
+
+#[contractimpl(contracttrait)]
+impl NonFungibleToken for NftVotes {
+    type ContractType = NonFungibleVotes;
+}
+
+#[contractimpl(contracttrait)]
+impl NonFungibleBurnable for NftVotes {}
+
+#[contractimpl(contracttrait)]
+impl Votes for NftVotes {}
